@@ -1,5 +1,7 @@
 //! vcheck-pure <ID> [quick|thorough]  — checks that need no source hooks.
 mod c16;
+mod c17;
+mod wallet;
 mod refnum;
 
 fn main() {
@@ -12,6 +14,7 @@ fn main() {
         let w = &v["witness"];
         match v["property"].as_str().unwrap_or("") {
             "C16" => c16::replay(w),
+            "C17" => c17::replay(w),
             other => {
                 eprintln!("no replay for {other}");
                 std::process::exit(2)
@@ -21,6 +24,7 @@ fn main() {
     }
     match id {
         "C16" => c16::main(tier),
+        "C17" => c17::main(tier),
         _ => {
             eprintln!("usage: vcheck-pure <C16|...> [quick|thorough]");
             std::process::exit(2);
